@@ -222,6 +222,38 @@ func checkC06(c C06Case, o *Obs) error {
 		if err := compare("File(*.gz file made of three concatenated gzip members)", func(cb func(Item) bool) { codec.File(multi, cb) }); err != nil {
 			return err
 		}
+		// a *.gz cut short (interrupted transfer): File must not end as though the data were
+		// complete - it yields an error - and whatever records it yields are leading records
+		if gzData, err := os.ReadFile(gz); err == nil && len(gzData) > 24 && nrec >= 1 {
+			cut := filepath.Join(scratchDir(), fmt.Sprintf("cut%d x.%s.gz", nextTmp(), c.Format))
+			if os.WriteFile(cut, gzData[:len(gzData)-9], 0o644) == nil {
+				trackTemp(cut)
+				got, over, p := collect(func(cb func(Item) bool) { codec.File(cut, cb) }, limit)
+				if p != nil || over {
+					return fmt.Errorf("%s.File(a *.gz file cut short by 9 bytes) panicked or did not end: %v", c.Format, p)
+				}
+				j, nerr := 0, 0
+				var recs []Item
+				for _, it := range base {
+					if it.Err == nil {
+						recs = append(recs, it)
+					}
+				}
+				for _, it := range got {
+					if it.Err != nil {
+						nerr++
+						continue
+					}
+					if j >= len(recs) || it.key() != recs[j].key() {
+						return fmt.Errorf("%s.File(a *.gz file cut short by 9 bytes): record item %d is %s, not record %d of the complete file (input %s)", c.Format, j, it, j, gen.Abbrev(text))
+					}
+					j++
+				}
+				if nerr == 0 {
+					return fmt.Errorf("%s.File(a *.gz file cut short by 9 bytes) yields %s and no error, as though the data were complete (input %s)", c.Format, describeItems(got), gen.Abbrev(text))
+				}
+			}
+		}
 		// The value returned by File(path) stands for the file: ranging over it again (also after
 		// an abandoned pass) yields the file's items again.
 		again := codec.FileSeq(plain)
@@ -314,7 +346,7 @@ var smallInputs = map[string][]string{
 	"sam":    {"@HD\tVN:1\nq\t0\tr\t1\t2\t3M\t=\t4\t5\tACG\tIII\n", "\x1f\x8bq\t0\tr\t1\t2\t3M\t=\t4\t5\tACG\tIII\n", "q\t0\tr\t1\t2\t3M\t=\t4\t5\tACG\tIII\tX:i:1\r\n", "q\t0\tr\n", "\n\n", "q\tx\tr\t1\t2\t3M\t=\t4\t5\tACG\tIII\n", "@a", "", "q\t0\tr\t1\t2\t3M\t=\t4\t5\tA\t\"I\nr\t0\tr\t1\t2\t3M\t=\t4\t5\tA\tI\n"},
 	"samh":   {"@HD\tVN:1\nq\t0\tr\t1\t2\t3M\t=\t4\t5\tACG\tIII\n", "\x1f\x8bq\t0\tr\t1\t2\t3M\t=\t4\t5\tACG\tIII\n", "@a\r\n@b\r\n", "@CO\t\"x\" y\nq\t0\tr\n", "", "@", "q\t0\tr\t1\t2\t3M\t=\t4\t5\tACG\tIII\tXX:A:\xff\n"},
 	"bed":    {"c\t1\t2\n", "c\t1\t2\r\nd\t3\t4\r\n", "\x1f\x8bc\t1\t2\nd\t3\t4\n", "\x1f\x8b\x08\x00\t1\t2\n", "#x\nc\t1\t2\tn\t5\t+\n", "c\t1\n", "c\t1\t2\nd\t3\n", "c\t1\t2\tn\"m\n", "\n", "", "c\tx\t2\n", "c\t1\t2\tn\t5\t+\t1\t2\t1,2,3\t2\t1,2\t3,4"},
-	"newick": {"(a,b)c;", "(a:1,b:2.5)c:3;\n(d)e;", "(\x1f\x8b,b)c;", "\x1f\x8b;", "a;b;c;", "(a,b", "'a b';", "(a,b));", "", ";", "( a , b ) c ;\r\n", "a:x;", "'a''b':1e2;"},
+	"newick": {"(a,b)c;", "(a:1,b:2.5)c:3;\n(d)e;", "(\x1f\x8b,b)c;", "\x1f\x8b;", "a;b;c;", "(a,b", "'a b';", "(a,b));", "", ";", "( a , b ) c ;\r\n", "a:x;", "'a''b':1e2;", "(A,ab'cd');", "(a'b,c)d;", "ab'c';"},
 }
 
 // realInputs: inputs shaped as real tools write them.
@@ -337,6 +369,33 @@ func exhaustiveC06(thorough bool, emit func(C06Case) bool) {
 		for i, in := range append(append([]string{}, smallInputs[f]...), realInputs[f]...) {
 			c := C06Case{Format: f, Text: StreamText{Raw: gen.B(in)}, Chunks: []int{1 + i%3}, EOFWithData: i%2 == 0, Files: true}
 			if !emit(c) {
+				return
+			}
+		}
+	}
+	// a line whose content is exactly 4094..4097 / 8191..8193 bytes long, between ordinary lines,
+	// rendered with LF and with CRLF (the CR or the LF falls on the last byte of a 4096-byte buffer)
+	for _, f := range codecNames {
+		for _, n := range []int{4094, 4095, 4096, 4097, 8191, 8192, 8193, 12287} {
+			var ls []gen.B
+			pad := func(base int) string { return strings.Repeat("ACGT", n/4+1)[:n-base] }
+			switch f {
+			case "fasta":
+				ls = []gen.B{gen.B(">a"), gen.B("AC"), gen.B(">" + pad(1)), gen.B(pad(0)), gen.B(">b"), gen.B("GT")}
+			case "fastq":
+				ls = []gen.B{gen.B("@a"), gen.B("AC"), gen.B("+"), gen.B("II"), gen.B("@b"), gen.B(pad(0)), gen.B("+"), gen.B(strings.Repeat("I", n)), gen.B("@c"), gen.B("G"), gen.B("+"), gen.B("J")}
+			case "sam", "samh":
+				base := "q2\t0\tr\t1\t2\tM\t=\t4\t5\tA\t"
+				ls = []gen.B{gen.B("q1\t0\tr\t1\t2\tM\t=\t4\t5\tA\tI"), gen.B(base + pad(len(base))), gen.B("q3\t0\tr\t1\t2\tM\t=\t4\t5\tA\tI\tXX:Z:" + pad(40)), gen.B("q4\t0\tr\t1\t2\tM\t=\t4\t5\tA\tI")}
+				if f == "samh" {
+					ls = append([]gen.B{gen.B("@CO\t" + pad(4))}, ls...)
+				}
+			case "bed":
+				ls = []gen.B{gen.B("c\t1\t2\tn"), gen.B("c\t1\t2\t" + pad(6)), gen.B("d\t3\t4\tm")}
+			case "newick":
+				ls = []gen.B{gen.B("(a,b)c;"), gen.B("(" + pad(6) + ",b)d;"), gen.B("(e)f;")}
+			}
+			if !emit(C06Case{Format: f, Text: StreamText{Lines: ls}, Chunks: []int{4096}, EOFWithData: n%2 == 0}) {
 				return
 			}
 		}
